@@ -669,3 +669,7 @@ def replay(case):
             f'{len(case.get("epilogue", b"  "))} bytes, framing {case["framing"]}({case["arg"]}): {v[1]}')
 
 MANIFEST['text'] += ' Request sequences on one application include app.setup() with other limits; uploads are read in interleaved pieces; a spool file that cannot be created must not turn into an in-memory body.'
+MANIFEST['text'] += ' An E-SCHED layer parses two multipart forms on two threads of one application under every schedule with <= 1 preemption: each form is accepted or refused as it is when served alone.'
+if 'E-SCHED' not in MANIFEST['engines']:
+    MANIFEST['engines'] = list(MANIFEST['engines']) + ['E-SCHED']
+MANIFEST['technique'] += '; stateless exploration of all two-thread schedules (preemption-bounded, source-line scheduling points) for the state the property could park on shared objects'
